@@ -247,23 +247,36 @@ theorem mix_no_feed (solve : Solver α) (recv : St α) (rp : List Phase) (ins : 
   unfold mixFrom
   simp [hN]
 
-/-- **separate_energy.**  When `separate_out` of another (non-`None`, distinct) stream returns and
-material is left, the enthalpy of what is left is the difference of the two enthalpies read
-before, up to the setter residual. -/
+/-- **separate_energy.**  When `separate_out` of another non-empty stream (not `None`, not the stream
+itself) returns and material is left, the enthalpy of what is left is the difference of the two
+enthalpies read before, up to the setter residual. -/
 theorem separate_energy {Hf : PhaseState → α → α} {ε : α} {solve : Solver α}
     (hs : SolverSound Hf ε solve) (self : St α) (Hself Hother : α)
-    (hok : (separateOut solve self Hself Hother false false false).out = .ok) :
-    |Hf (separateOut solve self Hself Hother false false false).st.ph
-        (separateOut solve self Hself Hother false false false).st.T - (Hself - Hother)| ≤ ε := by
+    (hok : (separateOut solve self Hself Hother false false false false).out = .ok) :
+    |Hf (separateOut solve self Hself Hother false false false false).st.ph
+        (separateOut solve self Hself Hother false false false false).st.T - (Hself - Hother)| ≤ ε := by
   unfold separateOut at hok ⊢
-  simp only [Bool.false_eq_true, ↓reduceIte, Bool.or_self] at hok ⊢
+  simp only [Bool.or_self, Bool.false_eq_true, ↓reduceIte] at hok ⊢
   exact set_readback hs 0 _ _ rfl hok
 
-/-- Separating a stream from itself, or everything it holds, assigns `0 − 0` resp. the difference to
-an empty stream; with a zero difference nothing is solved and T, P stay. -/
+/-- **separate_noop.**  Separating out `None` or an empty stream changes nothing at all: phase,
+temperature, pressure and contents stay, nothing is assigned, the solver is not called — whatever
+else the arguments say (in particular also when the empty stream is the stream itself). -/
+theorem separate_noop (solve : Solver α) (self : St α) (Hself Hother : α) (otherNone otherEmpty same ea : Bool)
+    (h : otherNone = true ∨ otherEmpty = true) :
+    (separateOut solve self Hself Hother otherNone otherEmpty same ea).st = self ∧
+    (separateOut solve self Hself Hother otherNone otherEmpty same ea).out = .ok ∧
+    (separateOut solve self Hself Hother otherNone otherEmpty same ea).k = 0 ∧
+    (separateOut solve self Hself Hother otherNone otherEmpty same ea).target = none := by
+  unfold separateOut
+  rcases h with h | h <;> simp [h]
+
+/-- Separating a non-empty stream from itself empties it and assigns `0 − 0` to the empty stream:
+nothing is solved and T, P stay. -/
 theorem separate_self (solve : Solver α) (self : St α) (Hself Hother : α) (ea : Bool) :
-    (separateOut solve self Hself Hother false true ea).st = { self with empty := true } ∧
-    (separateOut solve self Hself Hother false true ea).out = .ok := by
+    (separateOut solve self Hself Hother false false true ea).st = { self with empty := true } ∧
+    (separateOut solve self Hself Hother false false true ea).out = .ok ∧
+    (separateOut solve self Hself Hother false false true ea).k = 0 := by
   unfold separateOut setEnergy isZero
   simp
 
